@@ -1,5 +1,6 @@
 import T4V.Text.Lex
 import T4V.Text.Blocks
+import T4V.Proofs.CellCard
 /-!
 # Property C14 — output does not depend on MCNP-insignificant formatting of the deck
 
@@ -248,5 +249,61 @@ theorem message_block_immaterial (msg g rest : List (List Char))
   simp only [hmsg, hno, if_true, Bool.false_eq_true, if_false, List.drop_succ_cons, List.drop_zero]
   generalize blocksOf rest = bs
   rcases bs with _ | ⟨b1, _ | ⟨b2, _ | ⟨b3, _ | ⟨b4, r⟩⟩⟩⟩ <;> rfl
+
+/-! ### cell cards: number, material, geometry, options (`cellcard.split` on the one-line content of a card)
+
+The content of a card has its blanks already normalised (one blank between words).  `OptsAt body o`: the options `o`
+start with a letter or `*` right after the final `)` or blank of the text in front, which has no earlier place where
+a blank or `)` is followed by a letter or `*` — or there are no options at all. -/
+open T4V.CC in
+/-- **a cell with a material**: for every cell number, every spelling of a non-zero material number, every density
+(any word without `(`), every geometry that begins with a blank or `(`, and every options text, the split returns
+exactly these pieces -/
+theorem cell_card_split_material (ds m r g o : List Char)
+    (hds : ds ≠ [] ∧ ∀ c ∈ ds, isDigit c = true)
+    (hm : m ≠ [] ∧ ∀ c ∈ m, cws c = false) (hz : floatZero? m = some false)
+    (hr : r ≠ [] ∧ ∀ c ∈ r, cws c = false ∧ c ≠ '(')
+    (hg : ∀ c rest, g = c :: rest → cws c = true ∨ c = '(')
+    (hopt : OptsAt (bodyNonvoid ds m r g) o) :
+    splitCell (bodyNonvoid ds m r g ++ o) = .ok { name := ds, mat := ' ' :: m ++ ' ' :: r, geom := g, opts := o } :=
+  split_nonvoid ds m r g o hds hm hz hr hg hopt
+
+open T4V.CC in
+/-- **a void cell**: any spelling of zero (`0`, `0.0`, `-0`, `0e5` …) is followed directly by the geometry -/
+theorem cell_card_split_void (ds m g o : List Char)
+    (hds : ds ≠ [] ∧ ∀ c ∈ ds, isDigit c = true)
+    (hm : m ≠ [] ∧ ∀ c ∈ m, cws c = false) (hz : floatZero? m = some true)
+    (hthird : ((g ++ o).dropWhile cws).isEmpty = false)
+    (hopt : OptsAt (bodyVoid ds m (' ' :: g)) o) :
+    splitCell (bodyVoid ds m (' ' :: g) ++ o) = .ok { name := ds, mat := ' ' :: m, geom := ' ' :: g, opts := o } :=
+  split_void ds m g o hds hm hz hthird hopt
+
+open T4V.CC in
+/-- **`LIKE n BUT`**: whatever the letter case of `like` and of `but`, the options are what follows the last `but` -/
+theorem cell_card_split_like (ds mid o : List Char) (l i k e x y z : Char)
+    (hds : ds ≠ [] ∧ ∀ c ∈ ds, isDigit c = true)
+    (hlk : [l, i, k, e].map lower = "like".toList) (hb : isBut x y z = true)
+    (ho : lastBut o = none)
+    (ho1 : ∀ a b rest, o = a :: b :: rest → isBut z a b = false)
+    (ho2 : ∀ a rest, o = a :: rest → isBut y z a = false) :
+    splitCell (ds ++ ' ' :: l :: i :: k :: e :: ' ' :: (mid ++ x :: y :: z :: o))
+      = .ok { name := ds, mat := [], geom := ' ' :: l :: i :: k :: e :: ' ' :: (mid ++ [x, y, z]), opts := o } :=
+  split_like ds mid o l i k e x y z hds hlk hb ho ho1 ho2
+
+open T4V.CC in
+/-- a text without letters and `*` has no place where options could start (so `OptsAt` holds for cards whose
+density has no exponent letter as soon as the options follow a blank or `)`) -/
+theorem no_options_in_plain_text (cs : List Char) (h : ∀ c ∈ cs, (c == '*' || isLetter c) = false) :
+    findOptions cs = none := findOptions_none_of_plain cs h
+
+open T4V.CC in
+example : splitCell "5 1 -2.7e0 -1 (2:3) #4 imp:n=1 u=2".toList
+    = .ok { name := "5".toList, mat := " 1 -2.7e0".toList, geom := " -1 (2:3) #4 ".toList, opts := "imp:n=1 u=2".toList } := by rfl
+open T4V.CC in
+example : splitCell "7 0.0 (1 2)*trcl=(1 0 0)".toList
+    = .ok { name := "7".toList, mat := " 0.0".toList, geom := " (1 2)".toList, opts := "*trcl=(1 0 0)".toList } := by rfl
+open T4V.CC in
+example : splitCell "12 LiKe 5 bUt imp:n=0".toList
+    = .ok { name := "12".toList, mat := [], geom := " LiKe 5 bUt".toList, opts := " imp:n=0".toList } := by rfl
 
 end T4V.C14
